@@ -39,6 +39,8 @@ MODELS = {
     "constterm": {"terms": {(): 2, (0, 1): -1}},
     "dense3": {"terms": {(0,): 1, (1,): -1, (2,): 0.5, (0, 1): 1, (0, 2): -1, (1, 2): 1}},
     "dense3c": {"terms": {(0,): 1, (1,): -1, (0, 1): 1, (1, 2): 1, (0, 1, 2): -2}, "deg": 3},
+    # integer labels outside CPython's cache of small ints (their objects are owned by the model, not immortal)
+    "biglabel": {"terms": {(0, 300): 1, (300,): -1, (0, 1, 300): 2}, "deg": 3, "matrix_only": True},
 }
 SCHEDULES = [[], [0], [0, 0], [1], [2, 0.5, 0], ["linear", 1], ["linear", 2], ["geometric", 1], ["geometric", 2]]
 
@@ -67,6 +69,15 @@ def call_specs(reduced=False):
                                     for seed in ((0, None) if not reduced else (0,)):
                                         out.append({"kind": kind, "model": mname, "container": cont, "scheme": scheme, "fn": fn, "schedule": sch,
                                                     "num_anneals": na, "init": init, "in_order": in_order, "seed": seed})
+    return out
+
+
+def reuse_specs():
+    """The same model OBJECT annealed several times in a row and used afterwards (keys, variables, mapping, a conversion)."""
+    out = []
+    for s in call_specs(reduced=True):
+        if s["model"] in ("biglabel", "dense3c", "gap", "deg6") and s["schedule"] == [1] and s["init"] == "none" and s["in_order"] and s["num_anneals"] == 1:
+            out.append(dict(s, repeat=4))
     return out
 
 
@@ -177,8 +188,8 @@ def run(ctx):
     d = 1 if quick else 2
     ctx.bounds = {"models": {k: [[list(t), c] for t, c in v["terms"].items()] for k, v in MODELS.items()}, "schedules": SCHEDULES,
                   "num_anneals": [1, 2, 5], "initial_states": ["none", "all +1 / all 0", "alternating"], "seeds": [0, None],
-                  "single_calls": len(specs), "pair_base_calls": len(pairs), "ordered_pairs": len(pairs) ** 2,
-                  "scripted_configs": len(red), "deviation_bound": d, "valgrind": not quick}
+                  "single_calls": len(specs), "model_reuse_sequences": len(reuse_specs()), "pair_base_calls": len(pairs), "ordered_pairs": len(pairs) ** 2,
+                  "scripted_configs": len(red), "deviation_bound": d, "deviated_positions": "the first 40 random draws of each call", "valgrind": not quick}
     ctx.rule = ("state = one call (or ordered pair, or scripted configuration) executed on the sanitizer build; transitions = kernel executions; "
                 "non-trivial = call that reaches a kernel (num variables >= 1)")
     nsh = NWORKERS
@@ -217,6 +228,27 @@ def run(ctx):
     st.traces += done
     st.nontrivial += len(specs)
     ctx.log("single calls: %d clean executions of %d calls x 2 heap fill patterns" % (done, len(specs)))
+
+    # ---- one model object annealed repeatedly and used afterwards; Python's allocator routed to malloc so that ASan also sees
+    #      the interpreter's own objects (a reference released by the extension that it never owned frees a label early)
+    reuse = reuse_specs()
+
+    def work_reuse(k):
+        part = [(i, s) for i, s in enumerate(reuse) if i % nsh == k]
+        res, crashes = drive("asan", "single", [s for _, s in part], env_extra={"PYTHONMALLOC": "malloc"})
+        return [(part[j][0], kind, loc, tape, err) for j, kind, loc, tape, err in crashes], len(res)
+    rdone = 0
+    for crashes, n in pmap(work_reuse, range(nsh)):
+        rdone += n
+        for i, kind, loc, tape, err in crashes:
+            s = reuse[i]
+            st.violation("%s|%s|reuse|%s|%s" % (s["fn"], model_class(s), kind, loc), {"mode": "reuse", "spec": s},
+                         "C17 %s (same model object annealed %d times, then used) on the ASan build with PYTHONMALLOC=malloc: %s at %s\n%s" % (s, s["repeat"], kind, loc, _tail(err)))
+    st.states += len(reuse)
+    st.evaluations += len(reuse)
+    st.transitions += 4 * len(reuse)
+    st.traces += 4 * rdone
+    ctx.log("model reuse: %d of %d sequences clean" % (rdone, len(reuse)))
 
     # ---- ordered pairs in one process
     alone = {}
@@ -334,6 +366,10 @@ def replay(case):
         res, crashes = drive("asan", "single", [case["spec"]])
         s = case["spec"]
         return [("%s|%s|%s|%s" % (s["fn"], model_class(s), kind, loc), "C17 %s: %s at %s" % (s, kind, loc)) for _, kind, loc, tape, err in crashes]
+    if mode == "reuse":
+        res, crashes = drive("asan", "single", [case["spec"]], env_extra={"PYTHONMALLOC": "malloc"})
+        s = case["spec"]
+        return [("%s|%s|reuse|%s|%s" % (s["fn"], model_class(s), kind, loc), "C17 %s reuse: %s at %s" % (s, kind, loc)) for _, kind, loc, tape, err in crashes]
     if mode == "fill":
         s = case["spec"]
         outs = []
